@@ -8,6 +8,7 @@ import (
 
 	"verif/mc/bind"
 	"verif/mc/core"
+	"verif/mc/env"
 	"verif/mc/spec"
 )
 
@@ -18,11 +19,13 @@ func init() {
 		ID:    "C16",
 		Title: "Packet type dispatch follows the first byte and header flags are preserved",
 		Level: "exploration",
-		Rule: "complete enumeration of all 256 first bytes x the bodies valid for the selected type taken from the specification encoder (minimal, rich, remaining length 0 where the type allows, every short form; for PUBLISH the body matches the QoS bits of that first byte: packet identifier present for QoS 1/2, absent for 0 and for the reserved combination 3). " +
+		Rule: "complete enumeration of all 256 first bytes x the bodies valid for the selected type taken from the specification encoder (minimal, rich, remaining length 0 where the type allows, every short form; for PUBLISH the body matches the QoS bits of that first byte: packet identifier present for QoS 1/2, absent for 0 and for the reserved combination 3), and every frame of the valid corpus V (~2.7k frames, one per field shape) under every flag nibble that keeps its body valid; every frame is read through ten reader implementations (scripted, bufio 16/4096/pre-filled, own type with Peek/Discard, LimitedReader, own type with an unrelated Len() method, bytes.Buffer, bytes.Reader, strings.Reader). " +
 			"Oracle: the dynamic type is the one selected by the upper nibble (0 yields Undefined whose Data() equals the body); a PUBLISH reports DUP, QoS and RETAIN of the lower nibble; for types 1-15 writing the decoded packet reproduces the same first byte. distinct_nontrivial = distinct (first byte, body) pairs.",
 		Assumptions: []string{"decoding must succeed for the body to be judged: bodies come from the valid-frame language"},
 		Run:         runC16,
-		Replay:      func(c core.Case) *core.Finding { return c16Exec(unhex(c.Frame)) },
+		Replay: func(c core.Case) *core.Finding {
+			return c16Exec(unhex(c.Frame), env.Kind(paramInt(c.Params, "reader")))
+		},
 	})
 }
 
@@ -82,15 +85,15 @@ func c16Bodies(t byte, flags byte) [][]byte {
 	return out
 }
 
-func c16Exec(frame []byte) *core.Finding {
+func c16Exec(frame []byte, kind env.Kind) *core.Finding {
 	resetGlobals()
 	fb := frame[0]
 	t := fb >> 4
 	mk := func(class, what string) *core.Finding {
-		return &core.Finding{Class: class + "/" + bind.TypeNames[t], Sig: map[string]string{"type": bind.TypeNames[t]},
-			Detail: fmt.Sprintf("first byte %02x, frame %s: %s", fb, abbrevHex(frame), what)}
+		return &core.Finding{Class: class + "/" + bind.TypeNames[t] + "/" + kind.String(), Sig: map[string]string{"type": bind.TypeNames[t], "reader": kind.String()},
+			Detail: fmt.Sprintf("first byte %02x, frame %s read through %s: %s", fb, abbrevHex(frame), kind, what)}
 	}
-	p, err, res := readPacket(bytes.NewReader(frame), stepBudget(len(frame)))
+	p, err, res := readPacket(env.Wrap(kind, &env.Reader{Data: frame}), stepBudget(len(frame)))
 	if res.Panic != "" || res.Budget {
 		return mk("decode-fails", "panic/budget: "+res.Panic)
 	}
@@ -124,19 +127,44 @@ func c16Exec(frame []byte) *core.Finding {
 }
 
 func runC16(x *core.Ctx) {
+	try := func(frame []byte, stratum string) {
+		for _, kind := range env.AllKinds() {
+			x.Eval(stratum)
+			x.Distinct(core.Hash([]byte{byte(kind)}, frame))
+			if f := c16Exec(frame, kind); f != nil {
+				fr, kind := frame, kind
+				x.Report(f, func() core.Case {
+					return core.Case{Harness: "c16", Frame: hexOf(fr), Params: map[string]any{"reader": int(kind)}}
+				}, func() *core.Finding { return c16Exec(fr, kind) })
+			}
+		}
+	}
 	for fb := 0; fb < 256; fb++ {
 		if !x.Mine() {
 			continue
 		}
 		for _, body := range c16Bodies(byte(fb>>4), byte(fb&15)) {
 			frame := reframe(byte(fb), body)
-			x.Eval(fmt.Sprintf("type%d", fb>>4))
-			x.Distinct(core.Hash(frame))
 			x.Sample(fmt.Sprintf("type%d", fb>>4), 1, func() any { return hexOf(clipBytes(frame)) })
-			if f := c16Exec(frame); f != nil {
-				fr := frame
-				x.Report(f, func() core.Case { return core.Case{Harness: "c16", Frame: hexOf(fr)} }, func() *core.Finding { return c16Exec(fr) })
+			try(frame, fmt.Sprintf("type%d", fb>>4))
+		}
+	}
+	// every frame of the valid corpus V (one frame per field shape of every
+	// type, ~2.7k bodies) under every flag nibble that keeps the body valid:
+	// all 16 for the types without flag-dependent layout, DUP and RETAIN
+	// varied for PUBLISH (its QoS bits decide whether a packet identifier
+	// is present)
+	for _, v := range validCorpus() {
+		if !x.Mine() {
+			continue
+		}
+		t := v.B[0] >> 4
+		for fl := 0; fl < 16; fl++ {
+			if t == 3 && byte(fl)&6 != v.B[0]&6 {
+				continue
 			}
+			frame := append([]byte{t<<4 | byte(fl)}, v.B[1:]...)
+			try(frame, "V.flags")
 		}
 	}
 }
